@@ -1,6 +1,7 @@
 (* Handles.v -- the handle GETTERS of the three real handle tables and sessions that remember which slot every open
    filled (property C16, second layer).  Definitions only.  The tables themselves, and the functions that open and close,
-   are the ones of Refcount.v (current code: variants Cur / MCur):
+   are the ones of Refcount.v (current code: variants Cur / MCur; the MLL sessions take the variant as a parameter so
+   that the old offset arithmetic, MOld, can be shown to reissue numbers):
 
      MLL    cgns_files[] / n_cgns_files / cgns_file_size / file_number_offset / n_open    (Refcount.mll, cg_open, cg_close)
             getter cgi_get_file                      src/cgns_internals.c  cgi_get_file
@@ -39,27 +40,31 @@ Definition drop_h (h : nat) (l : list (nat * nat * nat)) : list (nat * nat * nat
   filter (fun e => negb (Nat.eqb (l_h e) h)) l.
 
 (* cg_open fills cgns_files[n_cgns_files] (cg = &(cgns_files[n_cgns_files])) with the cgio handle it obtained *)
-Definition mh_step (m : mll) (live : mlive) (o : mop) : mll * mlive * option nat :=
+Definition mh_step (v : mvariant) (m : mll) (live : mlive) (o : mop) : mll * mlive * option nat :=
   match o with
-  | MOpen oc => let '(m1, r) := cg_open MCur m oc in
+  | MOpen oc => let '(m1, r) := cg_open v m oc in
                 (m1, match r with Some fn => (fn, length (files m), nexth m) :: live | None => live end, r)
-  | MClose fn ok => let '(m1, r) := cg_close m fn ok in
+  | MClose fn ok => let '(m1, r) := cg_close v m fn ok in
                     (m1, if r then drop_h fn live else live, if r then Some 0 else None)
   end.
 
-Fixpoint mh_run (m : mll) (live : mlive) (ops : list mop) : mll * mlive :=
+Fixpoint mh_run (v : mvariant) (m : mll) (live : mlive) (ops : list mop) : mll * mlive :=
   match ops with
   | [] => (m, live)
-  | o :: r => let '(m1, l1, _) := mh_step m live o in mh_run m1 l1 r
+  | o :: r => let '(m1, l1, _) := mh_step v m live o in mh_run v m1 l1 r
   end.
 
 (* the file numbers the successive opens of a session return (None = the open failed) *)
-Fixpoint mh_numbers (m : mll) (live : mlive) (ops : list mop) : list (option nat) :=
+Fixpoint mh_numbers (v : mvariant) (m : mll) (live : mlive) (ops : list mop) : list (option nat) :=
   match ops with
   | [] => []
-  | o :: r => let '(m1, l1, x) := mh_step m live o in
-              match o with MOpen _ => x :: mh_numbers m1 l1 r | _ => mh_numbers m1 l1 r end
+  | o :: r => let '(m1, l1, x) := mh_step v m live o in
+              match o with MOpen _ => x :: mh_numbers v m1 l1 r | _ => mh_numbers v m1 l1 r end
   end.
+
+(* the numbers actually handed out, in order *)
+Fixpoint somes (l : list (option nat)) : list nat :=
+  match l with [] => [] | Some x :: r => x :: somes r | None :: r => somes r end.
 
 (* ------------------------------------------------------------------------------------------------ cgio *)
 (* get_cgnsio(cgio_num, 0): "if (--cgio_num < 0 || cgio_num >= num_iolist) return NULL" -- nothing else is tested: a slot
